@@ -349,6 +349,65 @@ def check_proj_reject(case, ctx):
     raise Violation("invalid project_grid call (%s) accepted: %r" % (case["kind"], res))
 
 
+# ---------------------------------------------------------------- large inputs
+@st.composite
+def large_cases(draw):
+    return dict(n=draw(st.sampled_from([300, 2000])), m=draw(st.sampled_from([20000, 100000])), seed=draw(st.integers(0, 10**6)), offset=draw(st.sampled_from([0.0, 0.0, 512000.0, -7.52e6])),
+                scale=draw(st.sampled_from([1.0, 1e3, 1e-2])), form=draw(st.sampled_from(["array", "array2d", "grid"])), proj=draw(st.sampled_from([None, None, [0.8, -0.6, 0.6, 0.8], [2.0, 0.5]])))
+
+
+def check_large(case, ctx):
+    """tens of thousands of query points against the exact hull of the data (vectorised orientation tests; points within 1e-9 of an edge are exempt)"""
+    rng = np.random.RandomState(case["seed"])  # a pure function of the generated case
+    off, sc = case["offset"], case["scale"]
+    # data on a dyadic lattice inside a disc-ish blob: an exact hull is cheap
+    d = np.unique(rng.randint(-64, 65, size=(case["n"], 2)), axis=0).astype("float64")
+    d = d[(d[:, 0] ** 2 + 1.7 * d[:, 1] ** 2) <= 64.0**2]
+    if d.shape[0] < 3:
+        ctx.skip("degenerate_hull")
+    hull = convex_hull([(int(a), int(b)) for a, b in d])
+    if len(hull) < 3:
+        ctx.skip("degenerate_hull")
+    h = np.array([(float(a), float(b)) for a, b in hull])
+    de, dn = off + sc * d[:, 0], -off + sc * d[:, 1]
+    if case["form"] == "grid":
+        qx, qy = np.linspace(-70, 70, 401), np.linspace(-66, 66, 251)
+        gx, gy = np.meshgrid(qx, qy)
+    else:
+        gx, gy = rng.uniform(-70, 70, case["m"]), rng.uniform(-66, 66, case["m"])
+        if case["form"] == "array2d":
+            gx, gy = gx.reshape(10, -1), gy.reshape(10, -1)
+    qe, qn = off + sc * gx, -off + sc * gy
+    proj = None
+    if case["proj"] is not None and len(case["proj"]) == 4:
+        pa, pb, pc, pd_ = case["proj"]
+        proj = lambda a, b: (pa * (np.asarray(a) - off) + pb * (np.asarray(b) + off), pc * (np.asarray(a) - off) + pd_ * (np.asarray(b) + off))  # noqa: E731
+    elif case["proj"] is not None:
+        ax, ay = case["proj"]
+        proj = lambda a, b: (ax * np.asarray(a), ay * np.asarray(b))  # noqa: E731
+    kw = {} if proj is None else dict(projection=proj)
+    if case["form"] == "grid":
+        grid = xr.Dataset({"v": (("northing", "easting"), np.ones(gx.shape))}, coords={"easting": off + sc * qx, "northing": -off + sc * qy})
+        out = vd.convexhull_mask((de, dn), grid=grid, **kw)
+        mask = ~np.isnan(out["v"].values)
+    else:
+        mask = np.asarray(vd.convexhull_mask((de, dn), coordinates=(qe, qn), **kw))
+    ctx.check(mask.shape == gx.shape, "mask shape %s for query shape %s", mask.shape, gx.shape)
+    # signed distances to the hull edges in lattice units (the hull is counter-clockwise)
+    ex, ey = np.roll(h[:, 0], -1) - h[:, 0], np.roll(h[:, 1], -1) - h[:, 1]
+    ln = np.hypot(ex, ey)
+    dist = np.min([(ex[k] * (gy - h[k, 1]) - ey[k] * (gx - h[k, 0])) / ln[k] for k in range(h.shape[0])], axis=0)
+    margin = 1e-6 * 128 * (1.0 + abs(off) / (sc * 128) * 1e-3)
+    sure = np.abs(dist) > margin
+    exp = dist > 0
+    if not np.array_equal(mask[sure], exp[sure]):
+        k = np.argwhere(sure & (mask != exp))[0]
+        raise Violation("query point %r of %d (lattice units %r, %r) is %s the hull of %d data points (signed distance %.3g) but the mask says %r (%s form, projection %r, offset %r, scale %r)" % (
+            k.tolist(), gx.size, float(gx[tuple(k)]), float(gy[tuple(k)]), "inside" if exp[tuple(k)] else "outside", d.shape[0], float(dist[tuple(k)]), bool(mask[tuple(k)]), case["form"], case["proj"], off, sc))
+    ctx.label(case["form"], "n%d" % d.shape[0], "proj" if proj else "noproj", "utm" if off else "local")
+    ctx.nt(len(hull) >= 5)
+
+
 SUBCHECKS = [
     Sub("convexhull_mask", check_hull, strategy=hull_cases(), quick=500, thorough=3000, shards_quick=2,
         doc="mask vs exact hull membership, invariant under scale/aspect/offset placement, array vs grid form, optional projection"),
@@ -356,4 +415,6 @@ SUBCHECKS = [
         doc="name, shape, regular grid of the projected region, NaN outside / finite inside the hull, value reproduction (affine, no antialias), range bound (antialias)"),
     Sub("project_grid_rejects", check_proj_reject, strategy=proj_reject_cases(), quick=20, thorough=40, shards_thorough=1,
         doc="Datasets, non-2D arrays and unknown methods are rejected"),
+    Sub("large", check_large, strategy=large_cases(), quick=8, thorough=40, heavy=True,
+        doc="convexhull_mask for 20 000 - 100 000 query points / a 251 x 401 grid against the exact hull of up to 2 000 lattice points (vectorised orientation tests), with projections and UTM-sized offsets"),
 ]
